@@ -401,3 +401,54 @@ func scenarioSiblings(r *Rng) *project {
 	}
 	return p
 }
+
+// The same failing import reached from several importers that are parsed in
+// parallel: the diagnostics (text, location, line text, notes) must not
+// depend on which importer's parse result arrived first.
+func scenarioSharedFailingImport(r *Rng) *project {
+	p := &project{Kind: "shared-failing-import", Files: map[string]string{}, Errors: true}
+	p.Files["src/shared/data.xyz"] = "no loader for this"
+	p.Files["src/shared/bad.json"] = "{\"a\": 1,, }"
+	p.Files["src/shared/broken.js"] = "export const x = ;\n"
+	p.Files["src/shared/bad.css"] = ".a { color: red; } @import 'late.css'; .b { colr: }}\n"
+	p.Files["src/shared/dir/inner.txt"] = "a directory"
+	p.Files["src/shared/ok.js"] = "export const ok = 1; export function f() {}\n"
+	kinds := []string{
+		"import './shared/data.xyz';",
+		"import bad from './shared/bad.json'; console.log(bad);",
+		"import { x } from './shared/broken.js'; console.log(x);",
+		"import './shared/bad.css';",
+		"import './shared/dir';",
+		"import './shared/missing-file.js';",
+		"import { nope } from './shared/ok.js'; console.log(nope);",
+		"import attr from './shared/ok.js' with { type: 'nonsense' }; console.log(attr);",
+		"import other from './shared/data.xyz' with { mode: 'x' }; console.log(other);",
+	}
+	nEntries := r.Range(2, 4)
+	for e := 0; e < nEntries; e++ {
+		var esb strings.Builder
+		nParents := r.Range(2, 4)
+		for k := 0; k < nParents; k++ {
+			name := fmt.Sprintf("src/e%dimporter%d.js", e, k)
+			var sb strings.Builder
+			for pad := r.Intn(4); pad > 0; pad-- {
+				sb.WriteString("// padding so that locations differ\n")
+			}
+			for _, ki := range randPerm(r, len(kinds)) {
+				if r.Chance(55) {
+					sb.WriteString(strings.Repeat(" ", r.Intn(3)) + kinds[ki] + "\n")
+				}
+			}
+			fmt.Fprintf(&sb, "export const importer%d = %d;\n", k, k)
+			p.Files[name] = sb.String()
+			fmt.Fprintf(&esb, "import { importer%d } from './e%dimporter%d.js'; console.log(importer%d);\n", k, e, k, k)
+		}
+		if r.Bool() {
+			esb.WriteString(kinds[r.Intn(len(kinds))] + "\n")
+		}
+		name := fmt.Sprintf("src/entry%d.js", e)
+		p.Files[name] = esb.String()
+		p.Entries = append(p.Entries, name)
+	}
+	return p
+}
